@@ -154,8 +154,15 @@ def handle (toks : List String) (impl : String) : Verdict :=
           | .ok (.inr h, rest) => s!"hdr {hexN (encHdr h)} consumed={b.length - rest.length}"
           | .error .eof => "err eof"
           | .error .invalid => "err invalid"
+        -- the statement itself, without the model: a complete header that announces another PDU type
+        -- (other than Error, type 10 of RFC 8210, whose header `try_read` hands back) must end in an error
+        let wrongType : Bool := match b with
+          | _ :: t :: _ => decide (b.length ≥ 8 ∧ t ≠ pdu ∧ t ≠ 10)
+          | _ => false
         { model := some m,
-          oracle := if impl.startsWith "ok " ∨ impl.startsWith "hdr " ∨ impl = "err eof" ∨ impl = "err invalid" ∨ impl = "skipped-after-hangs" then none
+          oracle := if wrongType ∧ impl ≠ "err invalid" ∧ impl ≠ "skipped-after-hangs" then
+                      some s!"the header announces PDU type {b.getD 1 0}, not {pdu}: try_read must end in an error"
+                    else if impl.startsWith "ok " ∨ impl.startsWith "hdr " ∨ impl = "err eof" ∨ impl = "err invalid" ∨ impl = "skipped-after-hangs" then none
                     else some s!"reader did not end in a value or an error: {impl}" }
       | none => badOp "kind"
     | none => badOp "hex"
